@@ -51,10 +51,10 @@ RULE = (
     "or a refusal was required (key: parent, sub-screen, operation, operand states, result)."
 )
 BOUNDS = {
-    "quick": {"parents": ["A4", "B4", "C4", "D4"], "max_rows": 4, "concat_list_len": 3,
+    "quick": {"parents": ["A4", "B4", "C4", "D4", "E3", "F2"], "max_rows": 4, "concat_list_len": 3,
               "sub_screens": "all 2^N row subsets of each parent",
               "held_views": "every view recipe (observed / unobserved / inverse / each plate / all 2^N subsets) x every non-empty union of unobserved plates filled in by set_observed afterwards"},
-    "thorough": {"parents": ["A4", "B4", "C4", "D4", "A5", "B5"], "max_rows": 5, "concat_list_len": 3,
+    "thorough": {"parents": ["A4", "B4", "C4", "D4", "E3", "F2", "A5", "B5"], "max_rows": 5, "concat_list_len": 3,
                  "sub_screens": "all 2^N row subsets of each parent", "held_views": "as quick, on all six parents"},
 }
 ASSUMPTIONS = [
@@ -103,6 +103,16 @@ PARENTS = {
         ("s1", "p2", (("a", 1.0), ("b", 1.0)), 0.32, True),
         ("s0", "p0", (("c", 1.0), ("a", 1.0)), 0.42, True),
     ],
+    # observed rows whose stored value is not finite (a failed well): the mask, not the value, says what is observed
+    "E3": [
+        ("s0", "p0", (("a", 1.0), ("b", 1.0)), float("nan"), True),
+        ("s1", "p0", (("a", 1.0), ("b", 1.0)), 0.4, True),
+        ("s0", "p1", (("b", 1.0), ("a", 1.0)), float("inf"), False),
+    ],
+    "F2": [
+        ("s0", "p0", (("a", 1.0),), float("nan"), True),
+        ("s0", "p1", (("a", 1.0),), float("-inf"), True),
+    ],
     "A5": [
         ("s0", "pB", (("a", 1.0), ("b", 1.0)), 0.11, True),
         ("s0", "pA", (("a", 1.0), ("b", 1.0)), 0.23, False),
@@ -149,8 +159,16 @@ def scatter(outer, inner):
     return out
 
 
+def _nan_safe(x):
+    if isinstance(x, list):
+        return [_nan_safe(y) for y in x]
+    if isinstance(x, float) and x != x:
+        return "nan"
+    return x
+
+
 def tolist(a):
-    return np.asarray(a).tolist()
+    return _nan_safe(np.asarray(a).tolist())
 
 
 def well_formed(v, n):
